@@ -2,6 +2,7 @@ import GmqttVerif.Model.Fed.Route
 import GmqttVerif.Model.Fed.Groups
 import GmqttVerif.Model.Fed.Node
 import GmqttVerif.Proofs.Fed.Route
+import GmqttVerif.Proofs.Fed.Groups
 /-
   C17 — Federation routing: forwarded to exactly the nodes that need it, delivered once.
 
@@ -106,6 +107,20 @@ theorem shared_one_in_federation_refuted : ¬ SharedOneStatement := by
     member of group 7. -/
 theorem shared_lost_refuted :
     servedBy (fun l => l) (⟨0, [7], false⟩ : FNode Nat Nat) [⟨1, [8], false⟩] [] 7 = 0 := by decide
+
+/-- What does hold: if the published message matches ONE share group in the whole federation and no other node holds a matching
+    non-shared subscription, exactly one node serves the group — the origin when the round robin picks it (nothing is forwarded,
+    local delivery untouched), otherwise the picked node (and the origin's own delivery is dropped, or restricted to its
+    non-shared subscribers when it has some).  For every `sort` that permutes, every counter value, any number of members per node. -/
+theorem shared_one_in_federation_partial {ν γ : Type} [DecidableEq ν] [DecidableEq γ]
+    (sort : List ν → List ν) (hsort : ∀ l, (sort l).Perm l)
+    (origin : FNode ν γ) (others : List (FNode ν γ)) (sent : List (γ × Nat)) (g : γ)
+    (hnames : ((origin :: others).map (·.name)).Nodup)
+    (hsingle : (∀ x ∈ origin.members, x = g) ∧ ∀ n ∈ others, ∀ x ∈ n.members, x = g)
+    (hnons : ∀ n ∈ others, n.nonShared = false)
+    (hmem : g ∈ origin.members ∨ ∃ n ∈ others, g ∈ n.members) :
+    servedBy sort origin others sent g = 1 :=
+  servedBy_single sort hsort origin others sent g hnames hsingle.1 hsingle.2 hnons hmem
 
 /-! ## 5. retained messages on the receiving node (F35) -/
 
